@@ -413,6 +413,38 @@ Proof.
     + exists pre, (Some this'), []. rewrite app_nil_r. splits; auto.
 Qed.
 
+(* ------------------------------------------------------------------ clone sources *)
+
+(** the source of every [Cl] event of a step is owned by the table when the step starts,
+    and the step hands over or drops nothing before its [T::clone] calls *)
+Definition src_ok (w : world) (ev : list event) : Prop :=
+  forall pre s n post, ev = pre ++ Cl s n :: post -> In s (world_ids w) /\ accounted pre = [].
+
+Lemma src_ok_no_clone w ev : cloned ev = [] -> src_ok w ev.
+Proof.
+  intros H pre s n post E. rewrite E, cloned_app in H. cbn [cloned] in H.
+  destruct (cloned pre); discriminate.
+Qed.
+
+Lemma cl_events_split : forall l m tail pre s n post,
+  cloned tail = [] -> cl_events l m ++ tail = pre ++ Cl s n :: post ->
+  In s l /\ accounted pre = [].
+Proof.
+  induction l as [|x r IH]; intros m tail pre s n post Ht E; cbn [cl_events app] in E.
+  - exfalso. rewrite E, cloned_app in Ht. cbn [cloned] in Ht. destruct (cloned pre); discriminate.
+  - destruct pre as [|e pre]; cbn [app] in E.
+    + inversion E; subst. split; [now left | reflexivity].
+    + inversion E; subst. destruct (IH _ _ _ _ _ _ Ht H1) as [H2 H3]. split; [now right | exact H3].
+Qed.
+
+Lemma get_obj_ids_in w k s : In s (obj_ids (get_obj w k)) -> In s (world_ids w).
+Proof.
+  unfold get_obj, world_ids, objs_ids. intro H.
+  destruct (nth_in_or_default k (w_objs w) Gone) as [Hin | E].
+  - apply in_flat_map. eauto.
+  - rewrite E in H. contradiction.
+Qed.
+
 (* ------------------------------------------------------------------ one step *)
 
 (** identities leaked by an explicit [mem::forget] of a whole object *)
@@ -430,13 +462,14 @@ Definition step_pushed (w : world) (o : op) : list Z :=
     (1) what the table owned before plus the identities created by the step = what the
         step handed over or dropped + what the table owns afterwards + what it leaked;
     (2) the identities created by the step are exactly its clone and push identities;
-    (3) its clone identities are fresh *)
+    (3) its clone identities are fresh;
+    (4) the sources of its clones are owned by the table when the step starts *)
 Definition step_post (w : world) (o : op) (w' : world) (ev : list event) : Prop :=
   Forall obj_ok (w_objs w') /\ (w_next w <= w_next w')%Z /\
   (forall i, occ (world_ids w) i + between (w_next w) (w_next w') i
              = occ (accounted ev) i + occ (world_ids w') i + occ (step_leak w o) i) /\
   (forall i, between (w_next w) (w_next w') i = occ (cloned ev) i + occ (step_pushed w o) i) /\
-  fresh_tr (w_next w) ev.
+  fresh_tr (w_next w) ev /\ src_ok w ev.
 
 Lemma post_set w o k o' ev :
   Forall obj_ok (w_objs w) -> get_obj w k <> Gone -> obj_ok o' ->
@@ -454,12 +487,13 @@ Proof.
     specialize (Hids i). specialize (Heq i). lia.
   - intro i. cbn [set_obj w_next]. now rewrite between_empty, Hcl, Hpu.
   - now apply fresh_tr_no_clone.
+  - now apply src_ok_no_clone.
 Qed.
 
 (** a finished clone (new object appended) or a panicked one (everything cloned so far
     dropped again): the accounting of both *)
 Lemma post_clone w k bomb (newo : option obj) pre tail :
-  world_ok w ->
+  world_ok w -> (forall s, In s pre -> In s (world_ids w)) ->
   match newo with
   | Some o' => obj_ok o' /\ obj_ids o' = zs (w_next w) (length pre) /\ tail = []
   | None => tail = map Drop (zs (w_next w) (length pre))
@@ -469,7 +503,9 @@ Lemma post_clone w k bomb (newo : option obj) pre tail :
          (w_next w + Z.of_nat (length pre))%Z)
     (cl_events pre (w_next w) ++ tail).
 Proof.
-  intros [Hall _] Hnew. unfold step_post. cbn [w_next w_objs step_leak step_pushed].
+  intros [Hall _] Hsrc Hnew. unfold step_post. cbn [w_next w_objs step_leak step_pushed].
+  assert (Htl : cloned tail = []).
+  { destruct newo as [o'|]; [now destruct Hnew as [_ [_ ->]] | rewrite Hnew; apply cloned_drops]. }
   assert (Hcl : cloned (cl_events pre (w_next w) ++ tail) = zs (w_next w) (length pre)).
   { rewrite cloned_app, cloned_cl. destruct newo as [o'|].
     - destruct Hnew as [_ [_ ->]]. apply app_nil_r.
@@ -484,9 +520,8 @@ Proof.
       rewrite app_nil_r, Hids, occ_app, !occ_nil. lia.
     + rewrite Hnew, accounted_drops, !occ_nil. lia.
   - intro i. rewrite Hcl, occ_zs, occ_nil. lia.
-  - apply fresh_tr_cl. destruct newo as [o'|].
-    + now destruct Hnew as [_ [_ ->]].
-    + rewrite Hnew. apply cloned_drops.
+  - now apply fresh_tr_cl.
+  - intros p s n post E. destruct (cl_events_split _ _ _ _ _ _ _ Htl E) as [H1 H2]. auto.
 Qed.
 
 Lemma step_ok w o : world_ok w ->
@@ -519,19 +554,25 @@ Proof.
       intro i. rewrite Eg. cbn [obj_ids accounted step_leak].
       rewrite (c_rep_ids _ _ Hrep), (c_rep_ids _ _ Hrep'), occ_app, occ_nil. lia.
   - (* clone of a consumer *)
-    destruct (c_clone_spec c live (w_next w) bomb Hrep) as [pre [oc [tail [E [_ Hoc]]]]].
+    destruct (c_clone_spec c live (w_next w) bomb Hrep) as [pre [oc [tail [E [[t Hpre] Hoc]]]]].
+    assert (Hsrc : forall s, In s pre -> In s (world_ids w)).
+    { intros s Hs. apply (get_obj_ids_in w k). rewrite Eg. cbn [obj_ids].
+      rewrite (c_rep_ids _ _ Hrep), Hpre. apply in_or_app. now left. }
     rewrite E. destruct oc as [c'|].
     + destruct Hoc as [Hrep' [_ Ht]].
-      apply (post_clone w k bomb (Some (OC c')) pre tail Hok). splits; [cbn; eauto | | assumption].
+      apply (post_clone w k bomb (Some (OC c')) pre tail Hok Hsrc). splits; [cbn; eauto | | assumption].
       cbn. apply (c_rep_ids _ _ Hrep').
-    + apply (post_clone w k bomb None pre tail Hok). assumption.
+    + apply (post_clone w k bomb None pre tail Hok Hsrc). assumption.
   - (* clone of a builder *)
-    destruct (b_clone_spec b live (w_next w) bomb Hrep) as [pre [ob [tail [E [_ Hob]]]]].
+    destruct (b_clone_spec b live (w_next w) bomb Hrep) as [pre [ob [tail [E [[t Hpre] Hob]]]]].
+    assert (Hsrc : forall s, In s pre -> In s (world_ids w)).
+    { intros s Hs. apply (get_obj_ids_in w k). rewrite Eg. cbn [obj_ids].
+      rewrite (b_rep_ids _ _ Hrep), Hpre. apply in_or_app. now left. }
     rewrite E. destruct ob as [b'|].
     + destruct Hob as [Hrep' [_ Ht]].
-      apply (post_clone w k bomb (Some (OB b')) pre tail Hok). splits; [cbn; eauto | | assumption].
+      apply (post_clone w k bomb (Some (OB b')) pre tail Hok Hsrc). splits; [cbn; eauto | | assumption].
       cbn. apply (b_rep_ids _ _ Hrep').
-    + apply (post_clone w k bomb None pre tail Hok). assumption.
+    + apply (post_clone w k bomb None pre tail Hok Hsrc). assumption.
   - (* drop of a consumer *)
     cbn [obj_drop]. rewrite (c_drop_rep _ _ Hrep). apply post_set; auto; [exact I | apply cloned_drops |].
     intro i. rewrite Eg, accounted_drops. cbn [obj_ids step_leak]. rewrite (c_rep_ids _ _ Hrep), !occ_nil. lia.
@@ -554,7 +595,7 @@ Proof.
     destruct (Nat.eq_dec (length live) (b_cap b)) as [Hfull | Hroom].
     + rewrite (b_push_rep_full b live (w_next w) Hrep Hfull).
       unfold step_post. cbn [w_next w_objs step_leak step_pushed accounted cloned fresh_tr].
-      rewrite Eg. splits; [assumption | lia | | | exact I].
+      rewrite Eg. splits; [assumption | lia | | | exact I | now apply src_ok_no_clone].
       * intro i. unfold world_ids. cbn [w_objs]. rewrite between_one, occ_nil. lia.
       * intro i. rewrite between_one, occ_nil. lia.
     + destruct Hrep as [Hi [Hs Hle]].
@@ -562,7 +603,7 @@ Proof.
       rewrite Hp.
       destruct (set_obj_facts w k (OB b') Hg Hall) as [Hall' Hids]; [cbn; eauto|].
       unfold step_post. cbn [w_next w_objs step_leak step_pushed accounted cloned fresh_tr].
-      rewrite Eg. splits; [exact Hall' | lia | | | exact I].
+      rewrite Eg. splits; [exact Hall' | lia | | | exact I | now apply src_ok_no_clone].
       * intro i. specialize (Hids i). unfold set_obj, world_ids in *. cbn [w_objs] in *.
         rewrite Eg in Hids. cbn [obj_ids] in Hids.
         rewrite (b_rep_ids _ _ (conj Hi (conj Hs Hle))), (b_rep_ids _ _ Hrep'), occ_app in Hids.
@@ -621,6 +662,37 @@ Proof.
   - specialize (Hc i). assert (H : between n0 n i > 0) by lia. apply between_pos in H. lia.
 Qed.
 
+Lemma app_split_mid {A} : forall (a c pre : list A) x post,
+  a ++ c = pre ++ x :: post ->
+  (exists t, a = pre ++ x :: t) \/ (exists l, pre = a ++ l /\ c = l ++ x :: post).
+Proof.
+  intros a c pre x post E. apply app_eq_app in E. destruct E as [l [[E1 E2] | [E1 E2]]].
+  - destruct l as [|e l]; cbn [app] in E2.
+    + right. exists []. rewrite app_nil_r in *. subst. auto.
+    + inversion E2; subst. left. now exists l.
+  - right. now exists l.
+Qed.
+
+Lemma between_cases a b i :
+  (between a b i = 1 /\ (a <= i < b)%Z) \/ (between a b i = 0 /\ ~ (a <= i < b)%Z).
+Proof.
+  pose proof (between_le a b i). destruct (Nat.eq_dec (between a b i) 0) as [E | E].
+  - right. split; [assumption | now apply between_zero].
+  - left. split; [lia | apply between_pos; lia].
+Qed.
+
+Lemma world_ok_occ w i : world_ok w ->
+  occ (world_ids w) i <= 1 /\ (occ (world_ids w) i > 0 -> (i < w_next w)%Z).
+Proof.
+  intros [_ [Hnd Hlt]]. split; [now apply occ_NoDup|]. intro H. apply Hlt. now apply occ_In.
+Qed.
+
+(** where the source of a clone comes from: an identity created before (initial, pushed or
+    cloned earlier) that has not been handed over or dropped so far *)
+Definition srcs_live (ids0 pu : list Z) (ev : list event) : Prop :=
+  forall pre s n post, ev = pre ++ Cl s n :: post ->
+    In s (ids0 ++ pu ++ cloned pre) /\ ~ In s (accounted pre) /\ (s < n)%Z.
+
 (** the invariant carried along a whole history *)
 Lemma run_inv : forall ops w0, world_ok w0 ->
   match run w0 ops with
@@ -632,20 +704,22 @@ Lemma run_inv : forall ops w0, world_ok w0 ->
                  = occ (accounted (evs os)) i + occ (world_ids w) i + occ (leaked w0 ops) i) /\
       (forall i, between (w_next w0) (w_next w) i
                  = occ (cloned (evs os)) i + occ (pushed w0 ops) i) /\
-      fresh_tr (w_next w0) (evs os)
+      fresh_tr (w_next w0) (evs os) /\
+      srcs_live (world_ids w0) (pushed w0 ops) (evs os)
   end.
 Proof.
   induction ops as [|o r IH]; intros w0 Hok; cbn [run leaked pushed].
   - cbn [evs flat_map accounted cloned fresh_tr]. splits; auto; try lia.
     + intro i. rewrite between_empty, !occ_nil. lia.
     + intro i. rewrite between_empty, !occ_nil. lia.
+    + intros pre s n post E. destruct pre; discriminate.
   - pose proof (step_ok w0 o Hok) as Hs. destruct (step w0 o) as [w1 rt ev| |]; try assumption.
     pose proof (step_post_world_ok _ _ _ _ Hok Hs) as Hok1.
-    destruct Hs as [Hall1 [Hle1 [Heq1 [Hcl1 Hfr1]]]].
+    destruct Hs as [Hall1 [Hle1 [Heq1 [Hcl1 [Hfr1 Hsrc1]]]]].
     pose proof (obj_ok_view _ (get_obj_ok w1 (op_target o) Hall1)) as Hv.
     destruct (obj_view (get_obj w1 (op_target o))) as [sl|]; [|congruence].
     specialize (IH w1 Hok1). destruct (run w1 r) as [w os| |]; try assumption.
-    destruct IH as [Hokw [Hle [Heq [Hcl Hfr]]]].
+    destruct IH as [Hokw [Hle [Heq [Hcl [Hfr Hsrc]]]]].
     unfold evs in *. cbn [flat_map snd]. splits.
     + assumption.
     + lia.
@@ -658,6 +732,26 @@ Proof.
       apply (evs_lt (w_next w0) (w_next w1) (world_ids w0)); auto.
       * intro i. specialize (Heq1 i). lia.
       * intro i. specialize (Hcl1 i). lia.
+    + intros pre s n post E. apply app_split_mid in E. destruct E as [[t E] | [l [Ep E]]].
+      * (* a clone of this very step *)
+        destruct (Hsrc1 _ _ _ _ E) as [Hin Hacc]. rewrite Hacc. splits; [apply in_or_app; now left | intros [] |].
+        destruct (world_ok_occ w0 s Hok) as [_ Hlt0]. apply occ_In in Hin.
+        specialize (Hcl1 n). rewrite E, cloned_app in Hcl1. cbn [cloned] in Hcl1.
+        rewrite occ_app, (occ_cons n) in Hcl1.
+        assert (H1 : occ [n] n = 1) by (rewrite occ_one_eq; destruct (Z.eq_dec n n); congruence).
+        destruct (between_cases (w_next w0) (w_next w1) n) as [[Hb Hr] | [Hb Hr]]; lia.
+      * (* a clone of a later step *)
+        destruct (Hsrc _ _ _ _ E) as [Hin [Hacc Hlt]]. subst pre.
+        apply occ_In in Hin. apply occ_not_In in Hacc. rewrite !occ_app in Hin.
+        pose proof (Heq1 s) as Heq1s. pose proof (Hcl1 s) as Hcl1s. pose proof (Hcl s) as Hcls.
+        rewrite E, cloned_app, occ_app in Hcls.
+        destruct (world_ok_occ w0 s Hok) as [Hw0a Hw0b].
+        destruct (world_ok_occ w1 s Hok1) as [Hw1a Hw1b].
+        destruct (between_cases (w_next w0) (w_next w1) s) as [[Hb1 Hr1] | [Hb1 Hr1]];
+        destruct (between_cases (w_next w1) (w_next w) s) as [[Hb2 Hr2] | [Hb2 Hr2]];
+          (splits; [apply occ_In; rewrite cloned_app, !occ_app; lia
+                   | apply occ_not_In; rewrite accounted_app, occ_app; lia
+                   | assumption]).
 Qed.
 
 (** no history from a well-formed table reads a moved-out or unwritten slot, the table is
@@ -686,10 +780,11 @@ Section History.
     (forall i, occ (accounted ev) i + occ (leaked w0 ops) i
                = occ (world_ids w0) i + between (w_next w0) (w_next w) i) /\
     (forall i, between (w_next w0) (w_next w) i = occ (cloned ev) i + occ (pushed w0 ops) i) /\
-    fresh_tr (w_next w0) ev.
+    fresh_tr (w_next w0) ev /\
+    srcs_live (world_ids w0) (pushed w0 ops) ev.
   Proof.
     pose proof (run_inv ops w0 Hok) as H. rewrite Hrun in H.
-    destruct H as [Hw [Hle [Heq [Hcl Hfr]]]].
+    destruct H as [Hw [Hle [Heq [Hcl [Hfr Hsrc]]]]].
     assert (fin = map Drop (world_ids w)) as ->.
     { destruct Hw as [Hall _]. pose proof Hfin as Hf. rewrite (drop_all_ok _ Hall) in Hf.
       unfold world_ids. congruence. }
@@ -703,6 +798,10 @@ Section History.
         * intro i. specialize (Heq i). lia.
         * intro i. specialize (Hcl i). lia.
       + apply fresh_tr_no_clone, cloned_drops.
+    - intros pre s n post E. apply app_split_mid in E. destruct E as [[t E] | [l [_ E]]].
+      + exact (Hsrc _ _ _ _ E).
+      + exfalso. apply (f_equal cloned) in E. rewrite cloned_drops, cloned_app in E.
+        cbn [cloned] in E. destruct (cloned l); discriminate.
   Qed.
 
   (** the identities ever created: initial, pushed, cloned — pairwise distinct *)
@@ -768,7 +867,7 @@ Section History.
     ~ In n (accounted pre) /\ ~ In n (cloned pre) /\ ~ In n (cloned post).
   Proof.
     intros pre s n post E.
-    destruct history_facts as [Hle [Heq [Hcl Hfr]]].
+    destruct history_facts as [Hle [Heq [Hcl [Hfr _]]]].
     rewrite E in Hfr. apply fresh_tr_split in Hfr. destruct Hfr as [Hge [Hna Hnc]].
     pose proof (proj1 (occ_NoDup _) history_created_distinct n) as Hd.
     unfold created in Hd. rewrite !occ_app, E, cloned_app in Hd. cbn [cloned] in Hd.
@@ -779,6 +878,14 @@ Section History.
     apply between_pos in Hb.
     splits; try assumption; try lia; apply occ_not_In; lia.
   Qed.
+
+  (** the source of every [T::clone] call is a live element: an identity created earlier
+      in the history (initial, pushed, or returned by an earlier clone) that has not been
+      handed over or dropped before the call; it differs from the identity returned *)
+  Theorem history_clone_sources_live : forall pre s n post,
+    ev = pre ++ Cl s n :: post ->
+    In s (world_ids w0 ++ pushed w0 ops ++ cloned pre) /\ ~ In s (accounted pre) /\ (s < n)%Z.
+  Proof. destruct history_facts as [_ [_ [_ [_ H]]]]. exact H. Qed.
 End History.
 
 (* ------------------------------------------------------------------ map_! on every path *)
